@@ -783,6 +783,22 @@ def read_impl(case, script, res):
                 ob["obs"] = ("end", "ok")
             else:
                 ob["obs"] = ("end", "odd", [(x.get("t"), x.get("tag"), x.get("fields", {}).get("M")) for x in fr])
+        elif o[0] == "idle":
+            e = recvs.get("op%d:idle" % k)
+            fr = e["frames"] if e else []
+            if o[1] in dead_clients:
+                ob["obs"] = ("idle", "gone")
+            elif any(x.get("t") == "E" and "idle transaction timeout" in (x.get("fields", {}).get("M") or "") for x in fr):
+                ob["obs"] = ("idle", "timeout")
+            elif not fr:
+                ob["obs"] = ("idle", "quiet", e["outcome"] if e else None)
+            else:
+                ob["obs"] = ("idle", "odd", [(x.get("t"), x.get("fields", {}).get("M")) for x in fr])
+        elif o[0] in ("pause", "resume"):
+            e = recvs.get("op%d:admin" % k)
+            fr = e["frames"] if e else []
+            okc = any(x.get("t") == "C" and (x.get("tag") or "").upper().startswith(o[0].upper()) for x in fr)
+            ob["obs"] = (o[0], "ok" if okc else "refused", [x.get("fields", {}).get("M") for x in fr if x.get("t") == "E"])
         else:
             ob["obs"] = ("disconnect",)
         out.append(ob)
@@ -862,6 +878,8 @@ def compare(case, script, model, impl, warm):
             elif kind == 6:
                 if io[1] != "gone":
                     return "%s: model says the client is gone, implementation %s" % (what, io)
+            elif kind == 9:
+                return "%s: model says the client is blocked by PAUSE (the scripts never do that), implementation %s" % (what, io)
             elif kind == 3:
                 if io[1] != "ok":
                     return "%s: model says the transaction starts on server %d, implementation %s" % (what, b, io)
@@ -871,6 +889,18 @@ def compare(case, script, model, impl, warm):
             exp = {4: "ok", 6: "gone"}.get(kind)
             if io[1] != exp:
                 return "%s: COMMIT %s, model %s" % (what, io, exp)
+        elif o[0] == "idle":
+            exp = {7: ("quiet",), 8: ("timeout",), 6: ("gone", "quiet")}.get(kind, ())
+            if io[1] not in exp:
+                return "%s: after %d ms of silence inside the transaction: %s, model %s (7 nothing, 8 idle transaction timeout, 6 no transaction)" % (what, o[2], io, kind)
+        elif o[0] in ("pause", "resume"):
+            if (io[1] == "ok") != (kind == 10 and a == 1):
+                return "%s: admin %s answered %s, model %s" % (what, o[0].upper(), io, (kind, a))
+        ip_ = sorted((DBID.get(p_["db"], -1), USERID.get(p_["user"], -1)) for p_ in i["state"]["pools"] if p_.get("paused"))
+        if ip_ != m["paused"]:
+            return "%s: paused pools %s, model %s" % (what, ip_, m["paused"])
+        if o[0] == "reload" and i["state"]["config"].get("idle_client_in_transaction_timeout") != m["cidle"]:
+            return "%s: CONFIG idle_client_in_transaction_timeout %s, model %s" % (what, i["state"]["config"].get("idle_client_in_transaction_timeout"), m["cidle"])
         if not warm:
             mo = sorted(s[0] for s in m["servers"])
             if mo != i["open"]:
@@ -954,9 +984,13 @@ def monitors(case, script, res, impl):
         for n, p in new["pools"].items():
             for u in p["users"]:
                 want[(n, u["username"])] = (newh.get(n), sorted(ports.get(b) for b in backends_of(new, n)),
-                                            (u.get("pool_mode") or p["opts"].get("pool_mode") or "transaction").capitalize(), u["pool_size"], u.get("password"))
-        have = {key: (p["hash"], sorted(s["port"] for s in p["servers"]), p["mode"], p["pool_size"], p["password"]) for key, p in post_p.items()}
+                                            (u.get("pool_mode") or p["opts"].get("pool_mode") or "transaction").capitalize(), u["pool_size"], u.get("password"),
+                                            u.get("statement_timeout", 0), False)
+        have = {key: (p["hash"], sorted(s["port"] for s in p["servers"]), p["mode"], p["pool_size"], p["password"], p.get("statement_timeout", 0),
+                      bool(p.get("paused")) and key not in pre_p) for key, p in post_p.items()}
         cfg_is_new = {n: set(us) for n, us in post_users.items()} == {n: {u["username"] for u in p["users"]} for n, p in new["pools"].items()}
+        if post["config"].get("idle_client_in_transaction_timeout") != idle_of(new):
+            V.append(("S3", "%s: after the reload CONFIG idle_client_in_transaction_timeout = %s, the file says %s" % (case["name"], post["config"].get("idle_client_in_transaction_timeout"), idle_of(new))))
         if want != have or not cfg_is_new:
             msg = "%s: after the reload CONFIG has pools %s; POOLS %s; the file describes %s" % (case["name"], sorted(newh), have, want)
             V.append(("S3", msg + (" [regression of %s]" % F12 if f.get("revive") else "")))
@@ -986,7 +1020,35 @@ def monitors(case, script, res, impl):
             if "'%s_" % c in sqltext and e["who"] not in ever.get(db, set()):
                 V.append(("S5", "%s: a statement of client %s (pool %s) reached backend %s, which no definition of that pool names: %s" % (case["name"], c, db, e["who"], sqltext)))
     # S4: the transaction that straddles the reload
-    if case["timing"] == "inside":
+    # S4b: silences inside an open transaction.  By the files alone: the transaction times out iff the timeout of the file in
+    # force when it STARTED is non-zero and below the silence; a reload in between changes nothing for it.
+    tmo_at = {}
+    inforce = BASES[case["base"]]
+    for k, (o, i) in enumerate(zip(script.ops, impl)):
+        if o[0] == "reload":
+            f = case["files"][o[1]]
+            if f["kind"] == "valid" and not f.get("dead") and i["obs"][1] not in (0, "err", 3):
+                inforce = f["sem"]
+        elif o[0] == "begin" and i["obs"][1] == "ok":
+            tmo_at[o[1]] = idle_of(inforce)
+        elif o[0] == "idle" and o[1] in tmo_at and i["obs"][1] in ("quiet", "timeout", "odd"):
+            t = tmo_at[o[1]]
+            exp = "timeout" if (t and t <= o[2]) else "quiet"
+            if i["obs"][1] != exp:
+                V.append(("S4", "%s: client %s was silent for %d ms inside a transaction that started under idle_client_in_transaction_timeout = %d "
+                                "(file in force now: %d): expected %s, got %s" % (case["name"], o[1], o[2], t, idle_of(inforce), exp, i["obs"])))
+    # S5b: nobody is admitted for a (pool, user) that is not in the file in force, paused or not
+    inforce = BASES[case["base"]]
+    for k, (o, i) in enumerate(zip(script.ops, impl)):
+        if o[0] == "reload":
+            f = case["files"][o[1]]
+            if f["kind"] == "valid" and not f.get("dead") and i["obs"][1] not in (0, "err", 3):
+                inforce = f["sem"]
+        elif o[0] == "connect" and i["obs"][1] == "ok" and (o[2], o[3]) not in keys_of(inforce):
+            V.append(("S5", "%s: client %s was admitted as %s@%s although the file in force has no such pool/user" % (case["name"], o[1], o[3], o[2])))
+        elif o[0] == "begin" and i["obs"][1] == "ok" and script.clients[o[1]] not in keys_of(inforce):
+            V.append(("S5", "%s: a transaction of client %s (%s) was served although the file in force has no such pool/user" % (case["name"], o[1], script.clients[o[1]])))
+    if case["timing"] == "inside" and not script.straddle_timeout:
         kb = next(k for k, o in enumerate(script.ops) if o == ("begin", "A"))
         ke = next(k for k, o in enumerate(script.ops) if o == ("end", "A"))
         b, e_ = impl[kb]["obs"], impl[ke]["obs"]
